@@ -674,6 +674,9 @@ func main() {
 	r.Cases("ring", r.N(40000, 2000000), ev.Opt{HangViolation: true}, ringCase)
 	r.Cases("ring-grid", len(grid), ev.Opt{HangViolation: true}, gridCase)
 	r.Cases("syncring", r.N(20000, 1000000), ev.Opt{HangViolation: true}, syncCase)
+	// cold start: one fresh process per case
+	r.CasesProc("cold-start/ring", 8, ev.Opt{Procs: 8, HangViolation: true}, ringCase)
+	r.CasesProc("cold-start/syncring", 8, ev.Opt{Procs: 8, HangViolation: true}, syncCase)
 	r.Cases("syncring-bigcap", len(bigCaps), ev.Opt{HangViolation: true, Workers: 4}, bigCapCase)
 	r.Cases("syncring-wrap", r.N(20000, 1000000), ev.Opt{HangViolation: true}, wrapCase)
 	r.Cases("syncring-honest", 6, ev.Opt{MaxCaseSeconds: 3000}, honestCase)
